@@ -58,6 +58,33 @@ Theorem C18_vacated_port : forall sd w u x k, index_of x (ports w sd u) = Some k
 Proof. exact remove_vacates. Qed.
 Print Assumptions C18_vacated_port.
 
+(* Caller-owned lists.  The list object handed to Unit(ins=lst, outs=lst2), to L[a:b] = lst or to
+   L.extend(lst) may be kept by the caller, passed again to another unit and edited afterwards.
+   [xstep] runs histories over (world, store of caller lists):
+   - such an operation is the plain operation on the contents the list has at the call
+     (C18_list_argument_is_read_by_value) and leaves the caller's list as it was
+     (C18_list_argument_is_left_alone);
+   - the caller's own edits of its list change no port list and no sink/source
+     (C18_caller_edit_leaves_the_flowsheet_alone): a unit owns its port lists;
+   - the connection invariant holds along every such history (C18_history_with_caller_lists),
+     e.g. the same list object used to build two units. *)
+Theorem C18_list_argument_is_read_by_value : forall w st x o, to_op st x = Some o ->
+  fst (fst (xstep (w, st) x)) = fst (step w o) /\ snd (xstep (w, st) x) = snd (step w o).
+Proof. exact xstep_by_value. Qed.
+Print Assumptions C18_list_argument_is_read_by_value.
+Theorem C18_list_argument_is_left_alone : forall w st x o, to_op st x = Some o ->
+  snd (fst (xstep (w, st) x)) = st.
+Proof. exact xstep_store_frame. Qed.
+Print Assumptions C18_list_argument_is_left_alone.
+Theorem C18_caller_edit_leaves_the_flowsheet_alone : forall w st x, to_op st x = None ->
+  fst (fst (xstep (w, st) x)) = w.
+Proof. exact xstep_world_frame. Qed.
+Print Assumptions C18_caller_edit_leaves_the_flowsheet_alone.
+Theorem C18_history_with_caller_lists : forall xs xw,
+  Inv (fst xw) -> xwithin xw xs -> Inv (fst (xrun xw xs)).
+Proof. exact xhistory_Inv. Qed.
+Print Assumptions C18_history_with_caller_lists.
+
 (* pop(i), python index arithmetic included (negative i): on a fixed-size list exactly port i receives
    a new placeholder and every other port keeps its stream; on a variable-size list exactly port i goes *)
 Theorem C18_pop_vacates_its_port : forall sd w u i k b, InvS sd w -> pfixed w sd u = true ->
@@ -129,6 +156,18 @@ Definition demo : list op :=
    OSetSliceStep SIn 6 None None (-1)%Z [AObj (S_ 0); AObj (S_ 1); AObj (S_ 2)]].
 Example C18_nonvacuous : within_pre (empty_world 5) (setup3 ++ demo) /\ Inv (run U3 demo).
 Proof. assert (H : within_pre (empty_world 5) (setup3 ++ demo)) by within_tac. split; [exact H | now apply Inv_after]. Qed.
+Definition xdemo : list xop :=
+  [XNewUnit 2 1 false true (XV 0) (XF FNone); XNewUnit 2 1 false true (XV 0) (XF FNone);
+   XCAppend 0 (IReal 2); XNewUnit 1 2 true false (XF FNone) (XV 1); XNewUnit 1 2 true false (XF FNone) (XV 1);
+   XCPop 0; XCPop 0; XCPop 0; XCAppend 0 (IReal 4); XExtend SIn 0 0; XCSet 1 1 (IReal 2);
+   XSlice SOut 3 None None 1; XCPop 1].
+Example C18_caller_lists_nonvacuous :
+  let xw0 := (empty_world 5, [[IReal 0; IReal 1]; [IReal 3; INone]]) in
+  xwithin xw0 xdemo /\ Inv (fst (xrun xw0 xdemo)).
+Proof.
+  cbv zeta. assert (H : xwithin (empty_world 5, [[IReal 0; IReal 1]; [IReal 3; INone]]) xdemo) by within_tac.
+  split; [exact H | apply xhistory_Inv; [apply Inv_empty | exact H]].
+Qed.
 Example C18_placeholder_backpointer_holds_along_demo :
   forallb (fun n => live_backb (run U3 (firstn n demo))) (seq 0 (S (length demo))) = true.
 Proof. vm_compute. reflexivity. Qed.
